@@ -10,7 +10,7 @@ import OccaModel.CppExpand
 namespace Occa.Cpp
 
 /-- all eight mutually recursive functions keep a result other than `outOfFuel` when one more unit of fuel is given -/
-structure Mono (vc : Bool) (n : Nat) : Prop where
+structure Mono (vc : XCfg) (n : Nat) : Prop where
   next : ∀ s r, next vc n s = r → r ≠ .outOfFuel → Occa.Cpp.next vc (n + 1) s = r
   fill : ∀ s r, fill vc n s = r → r ≠ .outOfFuel → Occa.Cpp.fill vc (n + 1) s = r
   processToken : ∀ t s r, processToken vc n t s = r → r ≠ .outOfFuel → Occa.Cpp.processToken vc (n + 1) t s = r
@@ -20,11 +20,11 @@ structure Mono (vc : Bool) (n : Nat) : Prop where
   loadArgs : ∀ m s r, loadArgs vc n m s = r → r ≠ .outOfFuel → Occa.Cpp.loadArgs vc (n + 1) m s = r
   collect : ∀ pc acc s r, collect vc n pc acc s = r → r ≠ .outOfFuel → Occa.Cpp.collect vc (n + 1) pc acc s = r
 
-theorem mono_zero (vc : Bool) : Mono vc 0 := by
+theorem mono_zero (vc : XCfg) : Mono vc 0 := by
   constructor <;> intros <;> simp_all [next, fill, processToken, processIdentifier, expandMacro, macroExpand,
     loadArgs, collect]
 
-theorem mono_succ (vc : Bool) (n : Nat) (ih : Mono vc n) : Mono vc (n + 1) := by
+theorem mono_succ (vc : XCfg) (n : Nat) (ih : Mono vc n) : Mono vc (n + 1) := by
   constructor
   · -- next
     intro s r h hne
@@ -75,26 +75,30 @@ theorem mono_succ (vc : Bool) (n : Nat) (ih : Mono vc n) : Mono vc (n + 1) := by
       · rename_i hd
         simp only [hd]
         split at h
-        · rename_i hfn; simp only [hfn, if_true]; exact ih.expandMacro _ _ _ _ h hne
-        · rename_i hfn
-          simp only [hfn]
+        · rename_i hdb; simp only [hdb, if_true]; exact h
+        · rename_i hdb
+          simp only [hdb]
           split at h
-          · rename_i he; simp only [he, if_true]; exact h
-          · rename_i he
-            simp only [he]
-            cases hn : Occa.Cpp.next vc n s with
-            | ok x =>
-              rw [hn] at h; rw [ih.next _ _ hn (by simp)]
-              obtain ⟨o, s'⟩ := x
-              cases o with
-              | none => exact h
-              | some nt =>
-                simp only at h ⊢
-                split at h
-                · rename_i hp; simp only [hp, if_true]; exact ih.expandMacro _ _ _ _ h hne
-                · rename_i hp; simp only [hp]; exact h
-            | outOfFuel => rw [hn] at h; exact absurd h.symm hne
-            | trap => rw [hn] at h; rw [ih.next _ _ hn (by simp)]; exact h
+          · rename_i hfn; simp only [hfn, if_true]; exact ih.expandMacro _ _ _ _ h hne
+          · rename_i hfn
+            simp only [hfn]
+            split at h
+            · rename_i he; simp only [he, if_true]; exact h
+            · rename_i he
+              simp only [he]
+              cases hn : Occa.Cpp.next vc n s with
+              | ok x =>
+                rw [hn] at h; rw [ih.next _ _ hn (by simp)]
+                obtain ⟨o, s'⟩ := x
+                cases o with
+                | none => exact h
+                | some nt =>
+                  simp only at h ⊢
+                  split at h
+                  · rename_i hp; simp only [hp, if_true]; exact ih.expandMacro _ _ _ _ h hne
+                  · rename_i hp; simp only [hp]; exact h
+              | outOfFuel => rw [hn] at h; exact absurd h.symm hne
+              | trap => rw [hn] at h; rw [ih.next _ _ hn (by simp)]; exact h
   · -- expandMacro
     intro t m s r h hne
     simp only [expandMacro] at h ⊢
@@ -154,28 +158,28 @@ theorem mono_succ (vc : Bool) (n : Nat) (ih : Mono vc n) : Mono vc (n + 1) := by
     | outOfFuel => rw [hn] at h; exact absurd h.symm hne
     | trap => rw [hn] at h; rw [ih.next _ _ hn (by simp)]; exact h
 
-theorem mono_all (vc : Bool) : ∀ n, Mono vc n
+theorem mono_all (vc : XCfg) : ∀ n, Mono vc n
   | 0 => mono_zero vc
   | n + 1 => mono_succ vc n (mono_all vc n)
 
 
-theorem fill_mono_le (vc : Bool) (s : PP) (r : Res PP) (hne : r ≠ .outOfFuel) :
+theorem fill_mono_le (vc : XCfg) (s : PP) (r : Res PP) (hne : r ≠ .outOfFuel) :
     ∀ (n k : Nat), fill vc n s = r → fill vc (n + k) s = r
   | _, 0, h => h
   | n, k + 1, h => (mono_all vc (n + k)).fill s r (fill_mono_le vc s r hne n k h) hne
 
-theorem processToken_mono_le (vc : Bool) (t : ITok) (s : PP) (r : Res PP) (hne : r ≠ .outOfFuel) :
+theorem processToken_mono_le (vc : XCfg) (t : ITok) (s : PP) (r : Res PP) (hne : r ≠ .outOfFuel) :
     ∀ (n k : Nat), processToken vc n t s = r → processToken vc (n + k) t s = r
   | _, 0, h => h
   | n, k + 1, h => (mono_all vc (n + k)).processToken t s r (processToken_mono_le vc t s r hne n k h) hne
 
-theorem next_mono_le (vc : Bool) (s : PP) (r : Res (Option Tok × PP)) (hne : r ≠ .outOfFuel) :
+theorem next_mono_le (vc : XCfg) (s : PP) (r : Res (Option Tok × PP)) (hne : r ≠ .outOfFuel) :
     ∀ (n k : Nat), next vc n s = r → next vc (n + k) s = r
   | _, 0, h => h
   | n, k + 1, h => (mono_all vc (n + k)).next s r (next_mono_le vc s r hne n k h) hne
 
 /-- two runs of processToken that both finish give the same result -/
-theorem processToken_det (vc : Bool) (t : ITok) (s : PP) (n m : Nat) (r r' : Res PP)
+theorem processToken_det (vc : XCfg) (t : ITok) (s : PP) (n m : Nat) (r r' : Res PP)
     (h : processToken vc n t s = r) (h' : processToken vc m t s = r')
     (hne : r ≠ .outOfFuel) (hne' : r' ≠ .outOfFuel) : r = r' := by
   rcases Nat.le_total n m with hle | hle
@@ -184,7 +188,7 @@ theorem processToken_det (vc : Bool) (t : ITok) (s : PP) (n m : Nat) (r r' : Res
   · obtain ⟨k, rfl⟩ := Nat.exists_eq_add_of_le hle
     rw [← h, processToken_mono_le vc t s r' hne' m k h']
 
-theorem drain_mono (vc : Bool) : ∀ (n : Nat) (s : PP) (acc : List Tok) (r : Res (List Tok × PP)),
+theorem drain_mono (vc : XCfg) : ∀ (n : Nat) (s : PP) (acc : List Tok) (r : Res (List Tok × PP)),
     drain vc n s acc = r → r ≠ .outOfFuel → drain vc (n + 1) s acc = r
   | 0, s, acc, r, h, hne => by simp [drain] at h; exact absurd h.symm hne
   | n + 1, s, acc, r, h, hne => by
@@ -199,13 +203,13 @@ theorem drain_mono (vc : Bool) : ∀ (n : Nat) (s : PP) (acc : List Tok) (r : Re
     | outOfFuel => rw [hn] at h; exact absurd h.symm hne
     | trap => rw [hn] at h; rw [(mono_all vc n).next _ _ hn (by simp)]; exact h
 
-theorem drain_mono_le (vc : Bool) (s : PP) (acc : List Tok) (r : Res (List Tok × PP)) (hne : r ≠ .outOfFuel) :
+theorem drain_mono_le (vc : XCfg) (s : PP) (acc : List Tok) (r : Res (List Tok × PP)) (hne : r ≠ .outOfFuel) :
     ∀ (n k : Nat), drain vc n s acc = r → drain vc (n + k) s acc = r
   | _, 0, h => h
   | n, k + 1, h => drain_mono vc (n + k) s acc r (drain_mono_le vc s acc r hne n k h) hne
 
 /-- if a line is expanded with some amount of fuel, every larger amount gives the same result -/
-theorem expandLine_mono_le (vc : Bool) (s : PP) (toks : List Tok) (r : Res (List Tok × PP)) (hne : r ≠ .outOfFuel)
+theorem expandLine_mono_le (vc : XCfg) (s : PP) (toks : List Tok) (r : Res (List Tok × PP)) (hne : r ≠ .outOfFuel)
     (n k : Nat) (h : expandLine vc n s toks = r) : expandLine vc (n + k) s toks = r :=
   drain_mono_le vc _ _ r hne n k h
 
@@ -235,18 +239,21 @@ def loopG : PP := { input := callTail "f", disabled := ["f"], table := tblFG }  
 def loopF : PP := { input := callTail "g", disabled := ["g"], table := tblFG }     -- about to process `f`
 def startF : PP := { input := [⟨tOp "(", []⟩, ⟨tNum "1", []⟩, ⟨tOp ")", []⟩, ⟨nlTok, []⟩], table := tblFG }
 
-theorem step_g (vc : Bool) : processToken vc 12 ⟨tId "g", []⟩ loopG = .ok { loopF with input := ⟨tId "f", []⟩ :: loopF.input } := by
-  cases vc <;> decide
+theorem step_g (vc : XCfg) : processToken vc 12 ⟨tId "g", []⟩ loopG = .ok { loopF with input := ⟨tId "f", []⟩ :: loopF.input } := by
+  rcases vc with ⟨a, b⟩
+  cases a <;> cases b <;> decide
 
-theorem step_f (vc : Bool) : processToken vc 12 ⟨tId "f", []⟩ loopF = .ok { loopG with input := ⟨tId "g", []⟩ :: loopG.input } := by
-  cases vc <;> decide
+theorem step_f (vc : XCfg) : processToken vc 12 ⟨tId "f", []⟩ loopF = .ok { loopG with input := ⟨tId "g", []⟩ :: loopG.input } := by
+  rcases vc with ⟨a, b⟩
+  cases a <;> cases b <;> decide
 
-theorem step_start (vc : Bool) : processToken vc 12 ⟨tId "f", []⟩ startF = .ok { loopG with input := ⟨tId "g", []⟩ :: loopG.input } := by
-  cases vc <;> decide
+theorem step_start (vc : XCfg) : processToken vc 12 ⟨tId "f", []⟩ startF = .ok { loopG with input := ⟨tId "g", []⟩ :: loopG.input } := by
+  rcases vc with ⟨a, b⟩
+  cases a <;> cases b <;> decide
 
 /-- one iteration of the `fill` loop from a state whose first token is `t`: either the fuel is exhausted
     inside processToken or the loop continues from the known successor state -/
-theorem fill_step (vc : Bool) (t : ITok) (s s' : PP) (K : Nat) (ho : s.output = [])
+theorem fill_step (vc : XCfg) (t : ITok) (s s' : PP) (K : Nat) (ho : s.output = [])
     (hk : processToken vc K t s = .ok s') (n : Nat) :
     fill vc (n + 1) { s with input := t :: s.input } = .outOfFuel ∨
     fill vc (n + 1) { s with input := t :: s.input } = fill vc n s' := by
@@ -266,7 +273,7 @@ theorem fill_step (vc : Bool) (t : ITok) (s s' : PP) (K : Nat) (ho : s.output = 
       have := processToken_det vc t _ n K _ _ hp hk (by simp) (by simp)
       simp at this
 
-theorem loop_forever (vc : Bool) : ∀ n,
+theorem loop_forever (vc : XCfg) : ∀ n,
     fill vc n { loopG with input := ⟨tId "g", []⟩ :: loopG.input } = .outOfFuel ∧
     fill vc n { loopF with input := ⟨tId "f", []⟩ :: loopF.input } = .outOfFuel
   | 0 => by simp [fill]
@@ -281,7 +288,7 @@ theorem loop_forever (vc : Bool) : ∀ n,
       · rw [h]; exact ih1
 
 /-- `f ( 1 )` with the table above: no amount of fuel is enough -/
-theorem expand_fg_diverges (vc : Bool) (n : Nat) :
+theorem expand_fg_diverges (vc : XCfg) (n : Nat) :
     expandLine vc n { table := tblFG } [tId "f", tOp "(", tNum "1", tOp ")"] = .outOfFuel := by
   cases n with
   | zero => simp [expandLine, drain]
